@@ -5,6 +5,6 @@ CONSTANTS
   NMsgs = 3
   AllowShutdown = TRUE
   RECORD = TRUE
-INVARIANTS NotAccepted OneAtATime ThreadLimit InOrder Conservation FlagExact UnregisterWaits
+INVARIANTS NotAccepted OneAtATime ThreadLimit InOrder Conservation FlagExact UnregisterWaits NoHandlerAfterUnregister
 CONSTRAINT Track
 POSTCONDITION Report
